@@ -151,6 +151,12 @@ class Harness:
                 if h.sample_error:
                     raise AldyException(h.sample_error)
                 self.name = "sample"
+                if profile is None:
+                    # what Sample._load_dump leaves behind: the pickled profile with the
+                    # debug switches and min_avg_coverage reset
+                    profile = FakeProfile("dumped", GRange("22", 1, 100), {"x": 1},
+                                          neutral_value=1.0)
+                    profile.min_avg_coverage = 2.0
                 self.profile = profile
                 self.is_long_read = False
                 self.coverage = FakeCoverage(profile, h.avg_cov)
